@@ -28,7 +28,7 @@ CLASSES = ('linear', 'nonlinear', 'mixed', 'unitcycle')
 
 
 def plan(tier, seed):
-    return dict(n=160 if tier == 'quick' else 16000, budget_s=150 if tier == 'quick' else 900, case_timeout=200)
+    return dict(n=240 if tier == 'quick' else 16000, budget_s=150 if tier == 'quick' else 900, case_timeout=200)
 
 
 def gen(tier, seed, index):
